@@ -152,3 +152,44 @@ def check_representatives(ctx, rule='A13'):
                                'matcher tests contiguity (or an open-ended range)' if ok else
                                'matcher does not test contiguity: a value in a gap is declared but cannot be decoded')
     return n
+
+
+# ---------------------------------------------------------------------- A13i: pattern state fixed by the first pattern
+def check_state_written_only_when_initialising(ctx, rule='A13i'):
+    """`_matches_pattern(settings, initialize)` is called once per existence pattern; the encoder's own attributes
+    (surjective, repeatable, directed, ...) describe *the* pattern and are used for every existence pattern when
+    encoding and decoding.  They may be written only for the first pattern (`initialize` true); for the others the
+    stored value has to be compared, not overwritten - a write outside `if initialize` lets a later existence
+    pattern silently change how the earlier ones are decoded."""
+    prog = ctx.prog
+    n = 0
+    for fn in prog.all_functions():
+        if fn.name != '_matches_pattern' or fn.owner_class is None or len(fn.params) < 3 or \
+                not fn.module.name.startswith('adsg_core.optimization.assign_enc.patterns'):
+            continue
+        flag = fn.params[2]
+        scopes = [fn] + [g for g in prog.all_functions() if g.parent is fn]
+        for sc in scopes:
+            cfg = build_cfg(sc)
+
+            def writes_self(sub):
+                if isinstance(sub, ast.Call) and call_name(sub) == 'setattr' and sub.args and norm(sub.args[0]) == 'self':
+                    return True
+                return False
+            sinks = guards.nodes_with(cfg, writes_self)
+            for nd in cfg.nodes:
+                if nd.kind == 'stmt' and isinstance(nd.ast, (ast.Assign, ast.AugAssign, ast.AnnAssign)):
+                    tgts = nd.ast.targets if isinstance(nd.ast, ast.Assign) else [nd.ast.target]
+                    if any(isinstance(t, ast.Attribute) and norm(t.value) == 'self' for t in tgts) and nd not in sinks:
+                        sinks.append(nd)
+            if not sinks:
+                continue
+            ctx.touch(sc)
+            for i, s in enumerate(sinks):
+                n += 1
+                guards.check_guarded(
+                    ctx, rule, sc, [s], lambda atom, truth: truth is True and isinstance(atom, ast.Name) and
+                    atom.id == flag, [], f'state-write-only-when-initialising:L{i}:{short(s.ast, 40)}',
+                    f'{fn.owner_class.name}: encoder state is written only while matching the first existence pattern '
+                    f'(`{flag}`); for later patterns it is compared')
+    return n
